@@ -223,7 +223,9 @@ structure Doc where
   bodies : List Comp
   /-- title, subline, footnote, source, page header, page footer — those that are not `None` -/
   texts : List Comp
-  /-- `rtf_column_header`, flat or nested, `None` entries dropped -/
+  /-- `rtf_column_header`, flat or nested, `None` entries dropped — every header OBJECT, with or without text of its own:
+  a header whose `text` is `None` is filled with the column names by `PageRenderer` (`as_colheader`) and printed with
+  its own colours, and `collect_document_colors` does not look at `text` (neither here nor for the `texts`) -/
   headers : List Comp
   deriving Repr
 
